@@ -39,6 +39,20 @@ func corpus() []updsim.History {
 		h.Ops = append([]updsim.Op{{K: updsim.OpStartup, Vis: []int{0, 0, 0}}}, updsim.FinalOps(cfg, []int{0, 0, 3})...)
 		hs = append(hs, h)
 	}
+	{ // a channel without storage record: its first record must not cover the update that introduces it
+		cfg := updsim.Config{Base: []int{0, 0, 0}, Untracked: []bool{false, false, true}}
+		h := updsim.History{Cfg: cfg, Log: []updsim.Entry{E(1, updsim.KCMsg, 2, 1, 1), E(2, updsim.KCMsg, 2, 2, 1)}}
+		h.Ops = []updsim.Op{{K: updsim.OpStartup, Vis: []int{0, 0, 0}}, {K: updsim.OpPush, Vis: []int{0, 0, 1}, Items: []int{1}, CID: 1}}
+		h.Ops = append(h.Ops, updsim.FinalOps(cfg, []int{0, 0, 2})...)
+		hs = append(hs, h)
+	}
+	{ // same, the first update arrives while later ones exist (start above the log's beginning)
+		cfg := updsim.Config{Base: []int{0, 0, 6}, Untracked: []bool{false, false, true}}
+		h := updsim.History{Cfg: cfg, Log: []updsim.Entry{E(1, updsim.KCMsg, 2, 6, 1), E(2, updsim.KCMsg, 2, 7, 1), E(3, updsim.KCOther, 2, 9, 2)}}
+		h.Ops = []updsim.Op{{K: updsim.OpStartup, Vis: []int{0, 0, 5}}, {K: updsim.OpPush, Vis: []int{0, 0, 9}, Items: []int{3, 2}, CID: 1}}
+		h.Ops = append(h.Ops, updsim.FinalOps(cfg, []int{0, 0, 9})...)
+		hs = append(hs, h)
+	}
 	return hs
 }
 
@@ -46,6 +60,7 @@ type restartJob struct {
 	hist      int
 	point     int
 	persisted []int
+	records   []bool
 	res       updsim.Result
 }
 
@@ -65,7 +80,7 @@ func main() {
 		}
 		if rp.Crash >= 0 && rp.Crash <= len(res.Trace) {
 			p := updsim.PersistedAt(rp.History.Cfg.Base, res.Trace[:rp.Crash])
-			r2 := updsim.Restart(res, p)
+			r2 := updsim.Restart(res, p, updsim.RecordsAt(rp.History.Cfg, res.Trace[:rp.Crash]))
 			fmt.Printf("replay: restart from %v: trace: %s\n", p, updsim.TraceString(r2.Trace))
 			for _, f := range updsim.CheckNoLoss(r2, res.Trace[:rp.Crash]) {
 				fmt.Printf("replay: oracle restart-%s: %s\n", f.Sig, f.Desc)
@@ -126,7 +141,7 @@ func main() {
 		}
 		for p := 0; p <= len(res.Trace); p++ {
 			if points[p] {
-				jobs = append(jobs, &restartJob{hist: i, point: p, persisted: updsim.PersistedAt(res.H.Cfg.Base, res.Trace[:p])})
+				jobs = append(jobs, &restartJob{hist: i, point: p, persisted: updsim.PersistedAt(res.H.Cfg.Base, res.Trace[:p]), records: updsim.RecordsAt(res.H.Cfg, res.Trace[:p])})
 			}
 		}
 	}
@@ -136,7 +151,7 @@ func main() {
 		go func(j *restartJob) {
 			defer wg.Done()
 			defer func() { <-sem }()
-			j.res = updsim.Restart(results[j.hist], j.persisted)
+			j.res = updsim.Restart(results[j.hist], j.persisted, j.records)
 		}(j)
 	}
 	wg.Wait()
@@ -158,7 +173,7 @@ func main() {
 		if res.Interference {
 			c.Count("timer-interference(no correspondence)")
 		} else {
-			sh, ix = c.Case(updsim.CoqCase(res, nil), rep)
+			sh, ix = c.Case(updsim.CoqCase(res, nil, nil), rep)
 		}
 		fs, np := updsim.CheckPrefixSafe(res, nil)
 		prefixes += np
@@ -187,7 +202,7 @@ func main() {
 		}
 		sh, ix := -1, 0
 		if !j.res.Interference {
-			sh, ix = c.Case(updsim.CoqCase(j.res, j.persisted), rep)
+			sh, ix = c.Case(updsim.CoqCase(j.res, j.persisted, j.records), rep)
 		}
 		fs, np := updsim.CheckPrefixSafe(j.res, j.persisted)
 		prefixes += np
